@@ -38,14 +38,44 @@ def pipeline(an, term):
 
 
 def effects(prog, fn):
+    """state updates of a closure, per path and per case of its branch-defined values / unwrap_or defaults:
+    [[guards], [[place, value], ...]] rows (writes through `&mut` captures and arguments)"""
+    from ..sym import forward_paths, atom_str
     b = prog.body(fn)
     an = analysis(prog, b)
     sy = Sym(prog, an, slice_param=99)
-    out = []
-    for bi, si, s in b.stmts():
-        if s["k"] == "assign" and any(e["k"] == "deref" for e in s["p"]["pr"]):
-            out.append([sy.name(an.terms.place(s["p"])), sy.name(an.terms.rvalue(s["rv"]))])
-    return sorted(out)
+    writes = [(bi, si, s) for bi, si, s in b.stmts() if s["k"] == "assign" and any(e["k"] == "deref" for e in s["p"]["pr"])]
+    rows = set()
+    for rb in b.returns():
+        for path in forward_paths(an, rb) or []:
+            on = [(bi, si, s) for bi, si, s in writes if bi in set(path[1])]
+
+            def _vals(path=path, on=on):
+                sy.set_path(path[1])
+                try:
+                    return [sy.name(an.terms.rvalue(s["rv"])) for _, _, s in on]
+                finally:
+                    sy.set_path(None)
+            for env, extra in accept.case_envs(sy, path, _vals):
+                if env:
+                    sy.set_cases(env)
+                try:
+                    from ..sym import path_atoms
+                    ats = accept.simplify(path_atoms(sy, path) + extra, sy.sym_box)
+                    if ats is None:
+                        continue
+                    sy.set_path(path[1])
+                    eff = []
+                    for _, _, s in on:
+                        rv = an.terms.rvalue(s["rv"])
+                        pv = sy.poly(rv)
+                        eff.append((sy.name(an.terms.place(s["p"])), str(pv) if pv is not None else sy.name(rv)))
+                    sy.set_path(None)
+                finally:
+                    if env:
+                        sy.set_cases(None)
+                rows.add((tuple(sorted(atom_str(a) for a in ats)), tuple(sorted(eff))))
+    return [[list(a), [list(e) for e in ef]] for a, ef in sorted(rows)]
 
 
 def closure_arg(an, t, idx):
@@ -202,8 +232,8 @@ def run(prog, tier, res):
             else:
                 res.violate(R4, main, "rayon:%s" % ",".join(extra), "rayon API outside the order-preserving allow-list: %s" % extra, prog.bodies[main].where())
     # sibling agreement of the time arithmetic (timestamp expression abstracted)
-    ev = json.dumps(got["bins"]["vertices"].get("scan_effects")).replace("arg3.1", "TS")
-    es = json.dumps(got["bins"]["scalers"].get("scan_effects")).replace("Option::<T>::map(arg3.1,|x| TrgPacket::timestamp(x))", "TS")
+    ev = json.dumps(got["bins"]["vertices"].get("scan_effects")).replace("(arg3.1 as Some).0", "TS")
+    es = json.dumps(got["bins"]["scalers"].get("scan_effects")).replace("alpha_g_detector::trigger::TrgPacket::timestamp((arg3.1 as Some).0)", "TS")
     if ev == es:
         res.hit(R6)
     else:
